@@ -483,13 +483,18 @@ func (vc *VC) atCall(fr *Frame, st *State, pc string, short string, ord int, sit
 		}
 		cenv := vc.envAt(fr, st)
 		// the actual arguments of the call are visible as arg0, arg1, ... (the receiver of a method call is arg0)
-		if ci, ok := site.(ssa.CallInstruction); ok && !ci.Common().IsInvoke() {
+		if ci, ok := site.(ssa.CallInstruction); ok {
+			k := 0
+			if ci.Common().IsInvoke() {
+				cenv.vars["arg0"] = vc.value(fr, st, ci.Common().Value) // interface method call: the receiver
+				k = 1
+			}
 			for i, a := range ci.Common().Args {
 				t := vc.value(fr, st, a)
 				if t.T == nil {
 					t.T = a.Type()
 				}
-				cenv.vars[fmt.Sprintf("arg%d", i)] = t
+				cenv.vars[fmt.Sprintf("arg%d", i+k)] = t
 			}
 		}
 		g := vc.evalBool(cenv, as.Cl.Expr)
